@@ -402,3 +402,44 @@ func VerifC12_S_platform_rule() {
 	sym.Reach("C12.S.platform-rule")
 	config.Global.OS, config.Global.Arch, config.Global.AllPlatforms = "linux", "amd64", false
 }
+
+// S5: several patterns are a union: a selector built from two patterns matches a label iff one of
+// the two patterns does (whatever the constructor does with the list - deduplication, ordering,
+// "covered" patterns - must not change the matched set). Patterns are assembled from the grammar
+// with symbolic package and name parts; the probe label is symbolic.
+func VerifC12_S_pattern_union() {
+	mkPat := func(tag string) label.TargetPattern {
+		pkg := sym.StringNAlpha("pkg_"+tag, unionLen(), "a/")
+		rec := []string{"", "/..."}[sym.Choice("recursive_"+tag, 2)]
+		var filter string
+		switch sym.Choice("filter_"+tag, 3) {
+		case 1:
+			filter = ":all"
+		case 2:
+			filter = ":" + sym.StringNAlpha("name_"+tag, 1, "ab")
+		}
+		text := "//" + pkg + rec + filter
+		p, err := label.ParseTargetPattern("", text)
+		sym.Assume(err == nil)
+		return p
+	}
+	p1, p2 := mkPat("1"), mkPat("2")
+	lp := sym.StringAlpha("probe_pkg", unionLen(), "a/")
+	ln := sym.StringAlpha("probe_name", 1, "ab")
+	sym.Assume(!sym.HasPrefix(lp, "/") && !sym.HasSuffix(lp, "/") && !sym.Contains(lp, "//"))
+	sym.Assume(ln != "")
+	l := label.TargetLabel{Package: lp, Name: ln}
+	config.Global.AllPlatforms = false
+	sel := New([]label.TargetPattern{p1, p2}, nil, nil, AllTargets)
+	want := sym.Or(p1.Matches(l), p2.Matches(l))
+	sym.Assert(sym.Iff(sel.Match(&model.Target{Label: l}), want), "C12.S5.two-patterns-select-the-union")
+	sym.Assert(sym.Iff(sel.Match(&model.Alias{Label: l, Actual: label.TL("x", "y")}), want), "C12.S5.two-patterns-select-the-union-for-aliases")
+	sym.Reach("C12.S.union")
+}
+
+func unionLen() int {
+	if sym.Tier() == "thorough" {
+		return 3
+	}
+	return 1
+}
